@@ -98,3 +98,72 @@ func vh_C16_NilFunction() {
 	vfAssert("empty", len(out) == 0)
 	vfReach("end")
 }
+
+// AT SCALE: a concrete list whose length is taken from the code (vfProbe: just beyond every integer constant that PMap and
+// its back ends compare a length, an index or a pool size with, or use as a channel capacity - a queue bound, a batch
+// size), next to the small size 8; pool sizes 1 and 3 in ordered mode, 3 in RandomOrder; base schedule only.
+func vh_C16_AtScale() {
+	vfSetDelayBound(0)
+	n := vfProbe("n", "PMap|pMap", 8, 8)
+	list := make([]int, n)
+	for i := range list {
+		list[i] = i
+	}
+	cfg := vfChoose("config", 3)
+	opt := &PMapOption{FixedPool: []int{1, 3, 3}[cfg], RandomOrder: cfg == 2}
+	var mu sync.Mutex
+	applied := make([]int, n)
+	other := 0
+	running, maxRunning := 0, 0
+	f := func(x int) int {
+		mu.Lock()
+		running++
+		if running > maxRunning {
+			maxRunning = running
+		}
+		if x >= 0 && x < n {
+			applied[x]++
+		} else {
+			other++
+		}
+		mu.Unlock()
+		mu.Lock()
+		running--
+		mu.Unlock()
+		return 2*x + 1
+	}
+	var out []int
+	if !vfNoPanic("nopanic", func() { out = PMap(f, opt, list...) }) {
+		return
+	}
+	vfAssert("returned-after-all-applications", running == 0)
+	vfAssert("len", len(out) == n)
+	once := true
+	for i := range applied {
+		once = once && applied[i] == 1
+	}
+	vfAssert("applied-exactly-once", once)
+	vfAssert("applied-to-nothing-else", other == 0)
+	seen := make([]int, n)
+	inOrder, perm := len(out) == n, len(out) == n
+	for i, v := range out {
+		if v != 2*i+1 {
+			inOrder = false
+		}
+		if v%2 != 1 || v/2 < 0 || v/2 >= n {
+			perm = false
+		} else {
+			seen[v/2]++
+		}
+	}
+	for _, c := range seen {
+		perm = perm && c == 1
+	}
+	if opt.RandomOrder {
+		vfAssert("permutation-of-map", perm)
+	} else {
+		vfAssert("equals-map", inOrder)
+	}
+	vfAssert("concurrency-bound", maxRunning <= opt.FixedPool)
+	vfReach("end")
+}
